@@ -35,7 +35,7 @@ def main():
             continue
         if prop and prop not in m["props"]:
             continue
-        scratch = f"/dev/shm/mut-{m['id']}"
+        scratch = f"/dev/shm/mut-{m['id']}-{os.getpid()}"  # per process: two campaigns may run side by side
         shutil.rmtree(scratch, ignore_errors=True)
         shutil.copytree("/repo/include", os.path.join(scratch, "include"))
         path = os.path.join(scratch, "include", m["file"])
